@@ -270,8 +270,34 @@ func cliProject(res *Result, sc *cliScenario, r *cliRun, prop string) (string, *
 				}
 			}
 		}
+		// a record the client cannot decode stops it, and the stop may overtake the delivery of a reply
+		// that was received before it (C05: "the peer's reply if one was delivered first"): when the
+		// client stopped during the run, only replies whose delivery had started by then are firm
+		firstStop := len(r.Log)
+		for i, e := range r.Log {
+			if strings.HasPrefix(e, "onstop") {
+				firstStop = i
+				break
+			}
+		}
+		deliveryStarted := func(id string) int {
+			for i, e := range r.Log {
+				if strings.HasPrefix(e, "run cli.deliver.enter ") {
+					f := strings.TrimPrefix(e, "run cli.deliver.enter ")
+					for _, part := range strings.Split(f, ";") {
+						if strings.HasPrefix(part, id+"/") {
+							return i
+						}
+					}
+				}
+			}
+			return len(r.Log)
+		}
 		for tg, want := range expected {
 			if mentions[r.ids[tg]] != 1 {
+				continue
+			}
+			if firstStop < len(r.Log) && deliveryStarted(r.ids[tg]) > firstStop {
 				continue
 			}
 			opTag := strings.SplitN(tg, ".", 2)[0]
@@ -648,7 +674,13 @@ func c05HTTPFailure(res *Result) {
 			if n > len(waits) {
 				return nil, func() (int, bool) { return 204, false }
 			}
-			return waits[n-1], func() (int, bool) { return 200, n == 1 } // the first request fails, the others are answered
+			// the first request fails - in transport, or with a body-less HTTP failure status - the others are answered
+			return waits[n-1], func() (int, bool) {
+				if n == 1 && round%3 != 0 {
+					return []int{0, 503, 401}[round%3], false
+				}
+				return 200, n == 1
+			}
 		}
 		cli := jrpc2.NewClient(jhttp.NewChannel("http://x/", &jhttp.ChannelOptions{Client: hc}), nil)
 		ncalls := 2 + round%2
@@ -671,7 +703,7 @@ func c05HTTPFailure(res *Result) {
 		for _, w := range waits[1:] {
 			close(w)
 		}
-		in := fmt.Sprintf("client over jhttp.Channel: %d calls in flight, the first HTTP request fails", ncalls)
+		in := fmt.Sprintf("client over jhttp.Channel: %d calls in flight, the first HTTP request fails (%s)", ncalls, []string{"transport error", "status 503 without a body", "status 401 without a body"}[round%3])
 		res.Case(fmt.Sprintf("http-failure/%d", round), true, in)
 		res.Count("http-transport-failure")
 		got := 0
